@@ -2,11 +2,11 @@ import Xrl.Lemmas.Cascade
 import Xrl.Props.C08
 import Xrl.Gen.F_kissel_pe
 /-!
-# C08 — part 2a: the 32 vacancy-production functions `P<shell>_{pure,rad_cascade,auger_cascade,full_cascade}_kissel`
+# C08 — part 2a: the 32 vacancyProd-production functions `P<shell>_{pure,rad_cascade,auger_cascade,full_cascade}_kissel`
 
-(src/xrf_cross_sections_aux.c; the K shell has no such function — its vacancy production is its own partial
+(src/xrf_cross_sections_aux.c; the K shell has no such function — its vacancyProd production is its own partial
 photo-ionisation, `vacancy_K`.)  For every table content, element, energy, inner-shell values `P` and slot: the
-generated function meets `Spec.vacancy`, given that the shell's own `CS_Photo_Partial` call meets the expectation
+generated function meets `Spec.vacancyProd`, given that the shell's own `CS_Photo_Partial` call meets the expectation
 `own` (never `.any`, never the value 0 — `CS_Photo_Partial` reports 0 as an error) and, for the variants that read
 the precomputed constants, that `Z` indexes the table when `own` is a value.
 -/
@@ -25,7 +25,7 @@ theorem cosKron_null (T : Tables ℝ) (Z tr : Int) :
 /-- the specification side, evaluated at a concrete sub-shell -/
 macro "c08_vac_spec" : tactic =>
   `(tactic| (
-    simp only [vacancy, List.foldl, transfer, cellFull, cellAuger, zero_lit, ite_acc2, ite_acc, Meets, Returns,
+    simp only [vacancyProd, List.foldl, transfer, cellFull, cellAuger, zero_lit, ite_acc2, ite_acc, Meets, Returns,
       lowerSame_0, lowerSame_1, lowerSame_2, lowerSame_3, lowerSame_4, lowerSame_5, lowerSame_6, lowerSame_7, lowerSame_8,
       inner_0, inner_1, inner_2, inner_3, inner_4, inner_5, inner_6, inner_7, inner_8,
       ckList_2_1, ckList_3_1, ckList_3_2, ckList_5_4, ckList_6_4, ckList_7_4, ckList_8_4, ckList_6_5, ckList_7_5, ckList_8_5,
@@ -47,7 +47,7 @@ macro "c08_vac" f:ident : tactic =>
       c08_vac_spec
       try (refine congrArg (fun x => (Except.ok (x, error) : M (ℝ × Slot))) ?_; ring)
     · subst ho
-      simp only [ro, bind_ok, pure_eq_ok, deq_real, zero_lit, if_true, vacancy, Meets]
+      simp only [ro, bind_ok, pure_eq_ok, deq_real, zero_lit, if_true, vacancyProd, Meets]
       exact fails_of_eq h1 h2 rfl
     · exact absurd hany hna))
 
@@ -65,190 +65,190 @@ macro "c08_vac_tab" f:ident : tactic =>
       c08_vac_spec
       try (refine congrArg (fun x => (Except.ok (x, error) : M (ℝ × Slot))) ?_; ring)
     · subst ho
-      simp only [ro, bind_ok, pure_eq_ok, deq_real, zero_lit, if_true, vacancy, Meets]
+      simp only [ro, bind_ok, pure_eq_ok, deq_real, zero_lit, if_true, vacancyProd, Meets]
       exact fails_of_eq h1 h2 rfl
     · exact absurd hany hna))
 
 variable (T : Tables ℝ) (Z : Int) (E : ℝ) (P : Int → ℝ) (error : Slot) (own : Expect ℝ)
 
-/-- the K shell is fed by nothing: its vacancy production is its own photo-ionisation, in every variant -/
-theorem vacancy_K (v : Variant) : vacancy T Z 0 v P own = own := by
-  cases own <;> cases v <;> simp [vacancy, lowerSame_0, inner_0]
+/-- the K shell is fed by nothing: its vacancyProd production is its own photo-ionisation, in every variant -/
+theorem vacancy_K (v : Variant) : vacancyProd T Z 0 v P own = own := by
+  cases own <;> cases v <;> simp [vacancyProd, lowerSame_0, inner_0]
 
 theorem vacancy_spec_L1_none
     (hown : Meets (Gen.CS_Photo_Partial T Z 1 E error) error own) (hna : own ≠ .any) :
-    Meets (Gen.PL1_pure_kissel T Z E error) error (vacancy T Z 1 .none P own) := by
+    Meets (Gen.PL1_pure_kissel T Z E error) error (vacancyProd T Z 1 .none P own) := by
   unfold Gen.PL1_pure_kissel
   rcases Meets.cases hown with ⟨o, ho, ro⟩ | ⟨ho, e, h1, h2, ro⟩ | hany
   · subst ho
     simp only [ro, bind_ok, pure_eq_ok]
     c08_vac_spec
   · subst ho
-    simp only [ro, bind_ok, pure_eq_ok, vacancy, Meets]
+    simp only [ro, bind_ok, pure_eq_ok, vacancyProd, Meets]
     exact fails_of_eq h1 h2 rfl
   · exact absurd hany hna
 
 theorem vacancy_spec_L1_rad
     (hown : Meets (Gen.CS_Photo_Partial T Z 1 E error) error own) (hna : own ≠ .any) (hnz : ∀ o, own = .value o → o ≠ 0) :
-    Meets (Gen.PL1_rad_cascade_kissel T Z E (P 0) error) error (vacancy T Z 1 .rad P own) := by
+    Meets (Gen.PL1_rad_cascade_kissel T Z E (P 0) error) error (vacancyProd T Z 1 .rad P own) := by
   c08_vac Gen.PL1_rad_cascade_kissel
 
 theorem vacancy_spec_L1_auger
     (hown : Meets (Gen.CS_Photo_Partial T Z 1 E error) error own) (hna : own ≠ .any) (hnz : ∀ o, own = .value o → o ≠ 0) (hZ : ∀ o, own = .value o → 0 ≤ Z ∧ Z ≤ 120) :
-    Meets (Gen.PL1_auger_cascade_kissel T Z E (P 0) error) error (vacancy T Z 1 .auger P own) := by
+    Meets (Gen.PL1_auger_cascade_kissel T Z E (P 0) error) error (vacancyProd T Z 1 .auger P own) := by
   c08_vac_tab Gen.PL1_auger_cascade_kissel
 
 theorem vacancy_spec_L1_full
     (hown : Meets (Gen.CS_Photo_Partial T Z 1 E error) error own) (hna : own ≠ .any) (hnz : ∀ o, own = .value o → o ≠ 0) (hZ : ∀ o, own = .value o → 0 ≤ Z ∧ Z ≤ 120) :
-    Meets (Gen.PL1_full_cascade_kissel T Z E (P 0) error) error (vacancy T Z 1 .full P own) := by
+    Meets (Gen.PL1_full_cascade_kissel T Z E (P 0) error) error (vacancyProd T Z 1 .full P own) := by
   c08_vac_tab Gen.PL1_full_cascade_kissel
 
 theorem vacancy_spec_L2_none
     (hown : Meets (Gen.CS_Photo_Partial T Z 2 E error) error own) (hna : own ≠ .any) (hnz : ∀ o, own = .value o → o ≠ 0) :
-    Meets (Gen.PL2_pure_kissel T Z E (P 1) error) error (vacancy T Z 2 .none P own) := by
+    Meets (Gen.PL2_pure_kissel T Z E (P 1) error) error (vacancyProd T Z 2 .none P own) := by
   c08_vac Gen.PL2_pure_kissel
 
 theorem vacancy_spec_L2_rad
     (hown : Meets (Gen.CS_Photo_Partial T Z 2 E error) error own) (hna : own ≠ .any) (hnz : ∀ o, own = .value o → o ≠ 0) :
-    Meets (Gen.PL2_rad_cascade_kissel T Z E (P 0) (P 1) error) error (vacancy T Z 2 .rad P own) := by
+    Meets (Gen.PL2_rad_cascade_kissel T Z E (P 0) (P 1) error) error (vacancyProd T Z 2 .rad P own) := by
   c08_vac Gen.PL2_rad_cascade_kissel
 
 theorem vacancy_spec_L2_auger
     (hown : Meets (Gen.CS_Photo_Partial T Z 2 E error) error own) (hna : own ≠ .any) (hnz : ∀ o, own = .value o → o ≠ 0) (hZ : ∀ o, own = .value o → 0 ≤ Z ∧ Z ≤ 120) :
-    Meets (Gen.PL2_auger_cascade_kissel T Z E (P 0) (P 1) error) error (vacancy T Z 2 .auger P own) := by
+    Meets (Gen.PL2_auger_cascade_kissel T Z E (P 0) (P 1) error) error (vacancyProd T Z 2 .auger P own) := by
   c08_vac_tab Gen.PL2_auger_cascade_kissel
 
 theorem vacancy_spec_L2_full
     (hown : Meets (Gen.CS_Photo_Partial T Z 2 E error) error own) (hna : own ≠ .any) (hnz : ∀ o, own = .value o → o ≠ 0) (hZ : ∀ o, own = .value o → 0 ≤ Z ∧ Z ≤ 120) :
-    Meets (Gen.PL2_full_cascade_kissel T Z E (P 0) (P 1) error) error (vacancy T Z 2 .full P own) := by
+    Meets (Gen.PL2_full_cascade_kissel T Z E (P 0) (P 1) error) error (vacancyProd T Z 2 .full P own) := by
   c08_vac_tab Gen.PL2_full_cascade_kissel
 
 theorem vacancy_spec_L3_none
     (hown : Meets (Gen.CS_Photo_Partial T Z 3 E error) error own) (hna : own ≠ .any) (hnz : ∀ o, own = .value o → o ≠ 0) :
-    Meets (Gen.PL3_pure_kissel T Z E (P 1) (P 2) error) error (vacancy T Z 3 .none P own) := by
+    Meets (Gen.PL3_pure_kissel T Z E (P 1) (P 2) error) error (vacancyProd T Z 3 .none P own) := by
   c08_vac Gen.PL3_pure_kissel
 
 theorem vacancy_spec_L3_rad
     (hown : Meets (Gen.CS_Photo_Partial T Z 3 E error) error own) (hna : own ≠ .any) (hnz : ∀ o, own = .value o → o ≠ 0) :
-    Meets (Gen.PL3_rad_cascade_kissel T Z E (P 0) (P 1) (P 2) error) error (vacancy T Z 3 .rad P own) := by
+    Meets (Gen.PL3_rad_cascade_kissel T Z E (P 0) (P 1) (P 2) error) error (vacancyProd T Z 3 .rad P own) := by
   c08_vac Gen.PL3_rad_cascade_kissel
 
 theorem vacancy_spec_L3_auger
     (hown : Meets (Gen.CS_Photo_Partial T Z 3 E error) error own) (hna : own ≠ .any) (hnz : ∀ o, own = .value o → o ≠ 0) (hZ : ∀ o, own = .value o → 0 ≤ Z ∧ Z ≤ 120) :
-    Meets (Gen.PL3_auger_cascade_kissel T Z E (P 0) (P 1) (P 2) error) error (vacancy T Z 3 .auger P own) := by
+    Meets (Gen.PL3_auger_cascade_kissel T Z E (P 0) (P 1) (P 2) error) error (vacancyProd T Z 3 .auger P own) := by
   c08_vac_tab Gen.PL3_auger_cascade_kissel
 
 theorem vacancy_spec_L3_full
     (hown : Meets (Gen.CS_Photo_Partial T Z 3 E error) error own) (hna : own ≠ .any) (hnz : ∀ o, own = .value o → o ≠ 0) (hZ : ∀ o, own = .value o → 0 ≤ Z ∧ Z ≤ 120) :
-    Meets (Gen.PL3_full_cascade_kissel T Z E (P 0) (P 1) (P 2) error) error (vacancy T Z 3 .full P own) := by
+    Meets (Gen.PL3_full_cascade_kissel T Z E (P 0) (P 1) (P 2) error) error (vacancyProd T Z 3 .full P own) := by
   c08_vac_tab Gen.PL3_full_cascade_kissel
 
 theorem vacancy_spec_M1_none
     (hown : Meets (Gen.CS_Photo_Partial T Z 4 E error) error own) (hna : own ≠ .any) :
-    Meets (Gen.PM1_pure_kissel T Z E error) error (vacancy T Z 4 .none P own) := by
+    Meets (Gen.PM1_pure_kissel T Z E error) error (vacancyProd T Z 4 .none P own) := by
   unfold Gen.PM1_pure_kissel
   rcases Meets.cases hown with ⟨o, ho, ro⟩ | ⟨ho, e, h1, h2, ro⟩ | hany
   · subst ho
     simp only [ro, bind_ok, pure_eq_ok]
     c08_vac_spec
   · subst ho
-    simp only [ro, bind_ok, pure_eq_ok, vacancy, Meets]
+    simp only [ro, bind_ok, pure_eq_ok, vacancyProd, Meets]
     exact fails_of_eq h1 h2 rfl
   · exact absurd hany hna
 
 theorem vacancy_spec_M1_rad
     (hown : Meets (Gen.CS_Photo_Partial T Z 4 E error) error own) (hna : own ≠ .any) (hnz : ∀ o, own = .value o → o ≠ 0) :
-    Meets (Gen.PM1_rad_cascade_kissel T Z E (P 0) (P 1) (P 2) (P 3) error) error (vacancy T Z 4 .rad P own) := by
+    Meets (Gen.PM1_rad_cascade_kissel T Z E (P 0) (P 1) (P 2) (P 3) error) error (vacancyProd T Z 4 .rad P own) := by
   c08_vac Gen.PM1_rad_cascade_kissel
 
 theorem vacancy_spec_M1_auger
     (hown : Meets (Gen.CS_Photo_Partial T Z 4 E error) error own) (hna : own ≠ .any) (hnz : ∀ o, own = .value o → o ≠ 0) (hZ : ∀ o, own = .value o → 0 ≤ Z ∧ Z ≤ 120) :
-    Meets (Gen.PM1_auger_cascade_kissel T Z E (P 0) (P 1) (P 2) (P 3) error) error (vacancy T Z 4 .auger P own) := by
+    Meets (Gen.PM1_auger_cascade_kissel T Z E (P 0) (P 1) (P 2) (P 3) error) error (vacancyProd T Z 4 .auger P own) := by
   c08_vac_tab Gen.PM1_auger_cascade_kissel
 
 theorem vacancy_spec_M1_full
     (hown : Meets (Gen.CS_Photo_Partial T Z 4 E error) error own) (hna : own ≠ .any) (hnz : ∀ o, own = .value o → o ≠ 0) (hZ : ∀ o, own = .value o → 0 ≤ Z ∧ Z ≤ 120) :
-    Meets (Gen.PM1_full_cascade_kissel T Z E (P 0) (P 1) (P 2) (P 3) error) error (vacancy T Z 4 .full P own) := by
+    Meets (Gen.PM1_full_cascade_kissel T Z E (P 0) (P 1) (P 2) (P 3) error) error (vacancyProd T Z 4 .full P own) := by
   c08_vac_tab Gen.PM1_full_cascade_kissel
 
 theorem vacancy_spec_M2_none
     (hown : Meets (Gen.CS_Photo_Partial T Z 5 E error) error own) (hna : own ≠ .any) (hnz : ∀ o, own = .value o → o ≠ 0) :
-    Meets (Gen.PM2_pure_kissel T Z E (P 4) error) error (vacancy T Z 5 .none P own) := by
+    Meets (Gen.PM2_pure_kissel T Z E (P 4) error) error (vacancyProd T Z 5 .none P own) := by
   c08_vac Gen.PM2_pure_kissel
 
 theorem vacancy_spec_M2_rad
     (hown : Meets (Gen.CS_Photo_Partial T Z 5 E error) error own) (hna : own ≠ .any) (hnz : ∀ o, own = .value o → o ≠ 0) :
-    Meets (Gen.PM2_rad_cascade_kissel T Z E (P 0) (P 1) (P 2) (P 3) (P 4) error) error (vacancy T Z 5 .rad P own) := by
+    Meets (Gen.PM2_rad_cascade_kissel T Z E (P 0) (P 1) (P 2) (P 3) (P 4) error) error (vacancyProd T Z 5 .rad P own) := by
   c08_vac Gen.PM2_rad_cascade_kissel
 
 theorem vacancy_spec_M2_auger
     (hown : Meets (Gen.CS_Photo_Partial T Z 5 E error) error own) (hna : own ≠ .any) (hnz : ∀ o, own = .value o → o ≠ 0) (hZ : ∀ o, own = .value o → 0 ≤ Z ∧ Z ≤ 120) :
-    Meets (Gen.PM2_auger_cascade_kissel T Z E (P 0) (P 1) (P 2) (P 3) (P 4) error) error (vacancy T Z 5 .auger P own) := by
+    Meets (Gen.PM2_auger_cascade_kissel T Z E (P 0) (P 1) (P 2) (P 3) (P 4) error) error (vacancyProd T Z 5 .auger P own) := by
   c08_vac_tab Gen.PM2_auger_cascade_kissel
 
 theorem vacancy_spec_M2_full
     (hown : Meets (Gen.CS_Photo_Partial T Z 5 E error) error own) (hna : own ≠ .any) (hnz : ∀ o, own = .value o → o ≠ 0) (hZ : ∀ o, own = .value o → 0 ≤ Z ∧ Z ≤ 120) :
-    Meets (Gen.PM2_full_cascade_kissel T Z E (P 0) (P 1) (P 2) (P 3) (P 4) error) error (vacancy T Z 5 .full P own) := by
+    Meets (Gen.PM2_full_cascade_kissel T Z E (P 0) (P 1) (P 2) (P 3) (P 4) error) error (vacancyProd T Z 5 .full P own) := by
   c08_vac_tab Gen.PM2_full_cascade_kissel
 
 theorem vacancy_spec_M3_none
     (hown : Meets (Gen.CS_Photo_Partial T Z 6 E error) error own) (hna : own ≠ .any) (hnz : ∀ o, own = .value o → o ≠ 0) :
-    Meets (Gen.PM3_pure_kissel T Z E (P 4) (P 5) error) error (vacancy T Z 6 .none P own) := by
+    Meets (Gen.PM3_pure_kissel T Z E (P 4) (P 5) error) error (vacancyProd T Z 6 .none P own) := by
   c08_vac Gen.PM3_pure_kissel
 
 theorem vacancy_spec_M3_rad
     (hown : Meets (Gen.CS_Photo_Partial T Z 6 E error) error own) (hna : own ≠ .any) (hnz : ∀ o, own = .value o → o ≠ 0) :
-    Meets (Gen.PM3_rad_cascade_kissel T Z E (P 0) (P 1) (P 2) (P 3) (P 4) (P 5) error) error (vacancy T Z 6 .rad P own) := by
+    Meets (Gen.PM3_rad_cascade_kissel T Z E (P 0) (P 1) (P 2) (P 3) (P 4) (P 5) error) error (vacancyProd T Z 6 .rad P own) := by
   c08_vac Gen.PM3_rad_cascade_kissel
 
 theorem vacancy_spec_M3_auger
     (hown : Meets (Gen.CS_Photo_Partial T Z 6 E error) error own) (hna : own ≠ .any) (hnz : ∀ o, own = .value o → o ≠ 0) (hZ : ∀ o, own = .value o → 0 ≤ Z ∧ Z ≤ 120) :
-    Meets (Gen.PM3_auger_cascade_kissel T Z E (P 0) (P 1) (P 2) (P 3) (P 4) (P 5) error) error (vacancy T Z 6 .auger P own) := by
+    Meets (Gen.PM3_auger_cascade_kissel T Z E (P 0) (P 1) (P 2) (P 3) (P 4) (P 5) error) error (vacancyProd T Z 6 .auger P own) := by
   c08_vac_tab Gen.PM3_auger_cascade_kissel
 
 theorem vacancy_spec_M3_full
     (hown : Meets (Gen.CS_Photo_Partial T Z 6 E error) error own) (hna : own ≠ .any) (hnz : ∀ o, own = .value o → o ≠ 0) (hZ : ∀ o, own = .value o → 0 ≤ Z ∧ Z ≤ 120) :
-    Meets (Gen.PM3_full_cascade_kissel T Z E (P 0) (P 1) (P 2) (P 3) (P 4) (P 5) error) error (vacancy T Z 6 .full P own) := by
+    Meets (Gen.PM3_full_cascade_kissel T Z E (P 0) (P 1) (P 2) (P 3) (P 4) (P 5) error) error (vacancyProd T Z 6 .full P own) := by
   c08_vac_tab Gen.PM3_full_cascade_kissel
 
 theorem vacancy_spec_M4_none
     (hown : Meets (Gen.CS_Photo_Partial T Z 7 E error) error own) (hna : own ≠ .any) (hnz : ∀ o, own = .value o → o ≠ 0) :
-    Meets (Gen.PM4_pure_kissel T Z E (P 4) (P 5) (P 6) error) error (vacancy T Z 7 .none P own) := by
+    Meets (Gen.PM4_pure_kissel T Z E (P 4) (P 5) (P 6) error) error (vacancyProd T Z 7 .none P own) := by
   c08_vac Gen.PM4_pure_kissel
 
 theorem vacancy_spec_M4_rad
     (hown : Meets (Gen.CS_Photo_Partial T Z 7 E error) error own) (hna : own ≠ .any) (hnz : ∀ o, own = .value o → o ≠ 0) :
-    Meets (Gen.PM4_rad_cascade_kissel T Z E (P 0) (P 1) (P 2) (P 3) (P 4) (P 5) (P 6) error) error (vacancy T Z 7 .rad P own) := by
+    Meets (Gen.PM4_rad_cascade_kissel T Z E (P 0) (P 1) (P 2) (P 3) (P 4) (P 5) (P 6) error) error (vacancyProd T Z 7 .rad P own) := by
   c08_vac Gen.PM4_rad_cascade_kissel
 
 theorem vacancy_spec_M4_auger
     (hown : Meets (Gen.CS_Photo_Partial T Z 7 E error) error own) (hna : own ≠ .any) (hnz : ∀ o, own = .value o → o ≠ 0) (hZ : ∀ o, own = .value o → 0 ≤ Z ∧ Z ≤ 120) :
-    Meets (Gen.PM4_auger_cascade_kissel T Z E (P 0) (P 1) (P 2) (P 3) (P 4) (P 5) (P 6) error) error (vacancy T Z 7 .auger P own) := by
+    Meets (Gen.PM4_auger_cascade_kissel T Z E (P 0) (P 1) (P 2) (P 3) (P 4) (P 5) (P 6) error) error (vacancyProd T Z 7 .auger P own) := by
   c08_vac_tab Gen.PM4_auger_cascade_kissel
 
 theorem vacancy_spec_M4_full
     (hown : Meets (Gen.CS_Photo_Partial T Z 7 E error) error own) (hna : own ≠ .any) (hnz : ∀ o, own = .value o → o ≠ 0) (hZ : ∀ o, own = .value o → 0 ≤ Z ∧ Z ≤ 120) :
-    Meets (Gen.PM4_full_cascade_kissel T Z E (P 0) (P 1) (P 2) (P 3) (P 4) (P 5) (P 6) error) error (vacancy T Z 7 .full P own) := by
+    Meets (Gen.PM4_full_cascade_kissel T Z E (P 0) (P 1) (P 2) (P 3) (P 4) (P 5) (P 6) error) error (vacancyProd T Z 7 .full P own) := by
   c08_vac_tab Gen.PM4_full_cascade_kissel
 
 theorem vacancy_spec_M5_none
     (hown : Meets (Gen.CS_Photo_Partial T Z 8 E error) error own) (hna : own ≠ .any) (hnz : ∀ o, own = .value o → o ≠ 0) :
-    Meets (Gen.PM5_pure_kissel T Z E (P 4) (P 5) (P 6) (P 7) error) error (vacancy T Z 8 .none P own) := by
+    Meets (Gen.PM5_pure_kissel T Z E (P 4) (P 5) (P 6) (P 7) error) error (vacancyProd T Z 8 .none P own) := by
   c08_vac Gen.PM5_pure_kissel
 
 theorem vacancy_spec_M5_rad
     (hown : Meets (Gen.CS_Photo_Partial T Z 8 E error) error own) (hna : own ≠ .any) (hnz : ∀ o, own = .value o → o ≠ 0) :
-    Meets (Gen.PM5_rad_cascade_kissel T Z E (P 0) (P 1) (P 2) (P 3) (P 4) (P 5) (P 6) (P 7) error) error (vacancy T Z 8 .rad P own) := by
+    Meets (Gen.PM5_rad_cascade_kissel T Z E (P 0) (P 1) (P 2) (P 3) (P 4) (P 5) (P 6) (P 7) error) error (vacancyProd T Z 8 .rad P own) := by
   c08_vac Gen.PM5_rad_cascade_kissel
 
 theorem vacancy_spec_M5_auger
     (hown : Meets (Gen.CS_Photo_Partial T Z 8 E error) error own) (hna : own ≠ .any) (hnz : ∀ o, own = .value o → o ≠ 0) (hZ : ∀ o, own = .value o → 0 ≤ Z ∧ Z ≤ 120) :
-    Meets (Gen.PM5_auger_cascade_kissel T Z E (P 0) (P 1) (P 2) (P 3) (P 4) (P 5) (P 6) (P 7) error) error (vacancy T Z 8 .auger P own) := by
+    Meets (Gen.PM5_auger_cascade_kissel T Z E (P 0) (P 1) (P 2) (P 3) (P 4) (P 5) (P 6) (P 7) error) error (vacancyProd T Z 8 .auger P own) := by
   c08_vac_tab Gen.PM5_auger_cascade_kissel
 
 theorem vacancy_spec_M5_full
     (hown : Meets (Gen.CS_Photo_Partial T Z 8 E error) error own) (hna : own ≠ .any) (hnz : ∀ o, own = .value o → o ≠ 0) (hZ : ∀ o, own = .value o → 0 ≤ Z ∧ Z ≤ 120) :
-    Meets (Gen.PM5_full_cascade_kissel T Z E (P 0) (P 1) (P 2) (P 3) (P 4) (P 5) (P 6) (P 7) error) error (vacancy T Z 8 .full P own) := by
+    Meets (Gen.PM5_full_cascade_kissel T Z E (P 0) (P 1) (P 2) (P 3) (P 4) (P 5) (P 6) (P 7) error) error (vacancyProd T Z 8 .full P own) := by
   c08_vac_tab Gen.PM5_full_cascade_kissel
 
 end C08
